@@ -19,3 +19,21 @@ func VerifClose(o order.Order) {
 		_ = n.storage.Close()
 	}
 }
+
+// VerifRestartState reports, for a node that was constructed but not started yet, the index of the
+// snapshot its raft log starts from and the applied index recorded on disk for the last reported block.
+func VerifRestartState(o order.Order) (snapshotIndex, recordedApplied uint64) {
+	n, ok := o.(*Node)
+	if !ok || n == nil {
+		return 0, 0
+	}
+	if n.raftStorage != nil && n.raftStorage.ram != nil {
+		if snap, err := n.raftStorage.ram.Snapshot(); err == nil {
+			snapshotIndex = snap.Metadata.Index
+		}
+	}
+	if n.storage != nil {
+		recordedApplied = n.loadAppliedIndex()
+	}
+	return
+}
